@@ -1890,6 +1890,10 @@ def _normalise_names(crates, badts):
                 cs = [n for n in new if related(par(n), par(k)) and shape_cur(cur[n], n) == shape_base(badts[k], k)]
                 same = [n for n in cs if n.rsplit('::', 1)[-1] == k.rsplit('::', 1)[-1]]
                 cs = same if len(same) == 1 else cs
+            if not cs:
+                # the type moved to another module of the same crate under its own name (`linked_list::EventNode` -> `node::EventNode`)
+                cs = [n for n in new if n.split('::', 1)[0] == k.split('::', 1)[0] and n.rsplit('::', 1)[-1] == k.rsplit('::', 1)[-1]
+                      and shape_cur(cur[n], n) == shape_base(badts[k], k)]
             if len(cs) == 1:
                 cand[k] = cs[0]
         used = defaultdict(list)
@@ -1984,10 +1988,21 @@ def apply_renames(P, base):
     present = {f.key for f in P.fn_list if f.kind not in ('closure', 'promoted')}
     missing = [k for k in base if k not in present and base[k] is not None]
     new = [f for f in P.fn_list if f.kind in ('fn', 'assocfn') and f.key not in base]   # (constants / statics are never a renamed function)
-    if not missing or not new:
-        return {}
     def parent(k):
         return k.rsplit('::', 1)[0]
+    # a pinned name that was given a new signature while a NEW function of the same parent has exactly the pinned signature and is what
+    # the re-signed one delegates to (`incoming_upstream(Option<Message>)` -> `upstream(Option<Message>)` + a thin
+    # `incoming_upstream(Message)`): the new function answers to the pinned key, the thin one becomes a new helper
+    taken = {}
+    for k, sig in base.items():
+        f0 = P.fns.get(k)
+        if sig is None or f0 is None or f0.kind not in ('fn', 'assocfn') or fn_signature(f0) == sig or len(sig) < 2:
+            continue
+        cs = [f for f in new if parent(f.key) == parent(k) and fn_signature(f) == sig and f.key in _local_callees(P, f0)]
+        if len(cs) == 1 and len(f0.blocks) <= 8:
+            taken[k] = cs[0]
+    if (not missing or not new) and not taken:
+        return {}
     cand = {}
     for k in missing:
         cs = [f for f in new if parent(f.key) == parent(k) and fn_signature(f) == base[k]]
@@ -2060,6 +2075,23 @@ def apply_renames(P, base):
             old_callees = {c for c, callers in getattr(P, 'baseline_callers', {}).items() if k in callers and c in P.fns}
             cs = [f for f in new if parent(f.key) == parent(k) and fn_signature(f)[1:] == base[k][1:] and len(base[k]) > 1
                   and old_callees <= _callees_with_closures(P, f)]
+        if len(cs) > 1 and k in (getattr(P, 'baseline_fp', {}) or {}):
+            # several new functions fit by place and signature (the renamed one plus new helpers): the renamed one is the one that still
+            # calls what the pinned function called — decided only by a strict best match of the callee fingerprints
+            want = set(P.baseline_fp[k]['callees'])
+            def _cal(f):
+                out = set()
+                for g in [f] + [h for h in P.fn_list if h.kind == 'closure' and h.root == f.key]:
+                    for blk in g.blocks:
+                        t = blk['t']
+                        if t['k'] == 'call':
+                            c = strip_generics(t['res']) if t.get('res') else (strip_generics(t['callee']) if t.get('callee') else None)
+                            if c:
+                                out.add(c)
+                return out
+            sc = sorted(((len(want & _cal(f)) / float(len(want | _cal(f)) or 1), f.key) for f in cs), reverse=True)
+            if want and sc[0][0] > 0.5 and sc[0][0] > sc[1][0]:
+                cs = [f for f in cs if f.key == sc[0][1]]
         if len(cs) == 1:
             cand[k] = cs[0]
     # several functions of one parent and signature renamed together (`vclone`, `vclone_panic` -> `erased_clone`, `erased_clone_unsupported`):
@@ -2120,6 +2152,10 @@ def apply_renames(P, base):
     for k, f in cand.items():
         used[f.key].append(k)
     ren = {f.key: k for k, f in cand.items() if len(used[f.key]) == 1}
+    for k, f in taken.items():
+        if f.key not in ren and k not in ren.values():
+            ren[f.key] = k
+            ren[k] = k + '__outer'
     if not ren:
         return {}
     def map_key(key):
@@ -2135,13 +2171,15 @@ def apply_renames(P, base):
         sk = strip_generics(pth)
         mk = map_key(sk)
         return mk if mk != sk else pth
-    for f in P.fn_list:
-        nk = map_key(f.key)
-        if nk != f.key:
+    moved = [(f, map_key(f.key)) for f in P.fn_list if map_key(f.key) != f.key]
+    for f, nk in moved:
+        if P.fns.get(f.key) is f:
             P.fns.pop(f.key, None)
-            f.key = nk
-            f.path = nk
-            P.fns.setdefault(nk, f)
+    for f, nk in moved:
+        f.key = nk
+        f.path = nk
+        P.fns.setdefault(nk, f)
+    for f in P.fn_list:
         if f.parent:
             f.parent = map_key(f.parent)
         if f.root:
